@@ -136,6 +136,8 @@ func runC10(ctx *Ctx) {
 		r := newRng(ctx.Seed, fmt.Sprintf("C10/%d", i))
 		g := newPageGen(r)
 		g.RelURLs = r.Chance(50)
+		g.Decorate = r.Chance(40)
+		g.DupAttrs = r.Chance(50)
 		body := g.blocks(r.Range(3, 10), 0)
 		if r.Chance(70) {
 			nn := r.Range(2, 6)
@@ -144,7 +146,16 @@ func runC10(ctx *Ctx) {
 		if r.Chance(40) { // a page without anything that forces a clone, but with an embed
 			body = "<p>" + g.words(40) + "</p>" + g.embed() + "<p>" + g.words(40) + "</p>"
 		}
-		check("<html><head><title>A page title for the argument tests</title></head><body>"+body+"</body></html>", i, r)
+		// metadata the markup parsers read, and attributes (repeated ones too) on html / head / body
+		htmlAttrs := r.Pick("", ` lang="en"`, ` lang="en" class="a" lang="de" data-x="1"`, ` xmlns:og="http://ogp.me/ns#" xmlns:og="http://ogp.me/ns#" id="top"`,
+			` prefix="og: http://ogp.me/ns#" class="x" class="y" dir="ltr"`, ` itemscope itemtype="http://schema.org/Article" itemscope id="a"`)
+		headExtra := ""
+		if r.Chance(60) {
+			headExtra = `<meta property="og:title" content="OG title"><meta property="og:type" content="article"><meta property="og:url" content="http://example.com/og"><meta property="og:image" content="http://example.com/i.png">` +
+				`<meta name="title" content="IE title"><meta name="copyright" content="c" name="x">`
+		}
+		bodyAttrs := r.Pick("", ` class="b" class="c" onload="x()"`, ` id="b" style="margin:0" id="c"`)
+		check("<html"+htmlAttrs+"><head"+r.Pick("", ` profile="p" profile="q" id="h"`)+"><title>A page title for the argument tests</title>"+headExtra+"</head><body"+bodyAttrs+">"+body+"</body></html>", i, r)
 	}
 	// ApplyForURL: the Options value handed in must come back unchanged
 	for k := 0; k < ctx.pick(6, 60); k++ {
